@@ -839,6 +839,15 @@ impl Worker {
             "reset" => {
                 chewing_Reset(c);
                 self.tok("chewing_Reset", "", "");
+                // since the C17 fix `chewing_Reset drops the pending enumeration iterators`: all four slots are empty
+                self.up_snap = None;
+                self.up_pos = 0;
+                self.cand_snap = None;
+                self.cand_pos = 0;
+                self.int_snap = None;
+                self.int_pos = 0;
+                self.kb_pos = None;
+                self.last_uh = None;
                 String::new()
             }
             "ack" => {
